@@ -336,10 +336,32 @@ func runC09History(c *Ctx, idx int) {
 					fail([]string{"C04"}, "fresh-newaddition-failed", fmt.Sprintf("NewAddition through an up-to-date handle failed: %v", err))
 					return
 				}
+				// sometimes write one or two tables into the transaction before abandoning it
+				if rng.Chance(0.6) {
+					ui := h.NextUpdateIndex()
+					for k := 0; k < 1+rng.Intn(2); k++ {
+						id++
+						t := gen.GenTxn(rng, id, model, opts)
+						u := ui
+						aerr := rtx.Safe(func() error { return add.Add(func(w *reftable.Writer) error { return stx.WriteTxn(w, t, u) }) })
+						if aerr != nil {
+							rtx.Safe(func() error { add.Close(); return nil })
+							fail([]string{"C04"}, "addition-add-failed|"+errClass(aerr), fmt.Sprintf("Addition.Add of a legal table failed: %v", aerr))
+							return
+						}
+						ui++
+					}
+					hc.Ops[len(hc.Ops)-1] += " (+tables, then abandoned)"
+					r.Count("abandoned_additions_with_tables", 1)
+				}
 				// abandon it: must leave no trace
 				rtx.Safe(func() error { add.Close(); return nil })
 				if !unchanged() {
 					fail([]string{"C16", "C04"}, "abandoned-addition-left-trace", fmt.Sprintf("NewAddition+Close changed the directory: %v -> %v", before, stx.DirSnapshot(dir)))
+					return
+				}
+				if nu := h.NextUpdateIndex(); nu != maxUI+1 && !(maxUI == 0 && nu == 1) {
+					fail([]string{"C09", "C04"}, "next-update-index-after-abandoned-addition", fmt.Sprintf("after an abandoned Addition NextUpdateIndex() = %d, committed max is %d", nu, maxUI))
 					return
 				}
 			}
